@@ -52,7 +52,7 @@ def check_record(spec, stats=None):
         stats["records:origin-spanning-gene"] += spec["layout"] in K.CIRCULAR_ONLY
         stats["records:identical-coordinate-areas"] += (spec["rules"] == "twins" or spec["sideload"] == "twin-sub")
         stats["records:modules"] += bool(st["modules"])
-        stats["records:prepeptide"] += "prepeptide" in spec["extras"]
+        stats["records:prepeptide"] += bool({"prepeptide", "*all*"} & set(spec["extras"]))
         stats["records:codon-start"] += spec["layout"] == "codonstart"
     # ---- GenBank
     try:
